@@ -146,7 +146,8 @@ mod builtins {
     #[cfg_attr(docsrs, doc(cfg(feature = "builtins")))]
     pub fn is_divisibleby(v: &Value, other: &Value) -> bool {
         match coerce(v, other, false) {
-            Some(CoerceResult::I128(a, b)) => (a % b) == 0,
+            // nothing is divisible by zero; `i128::MIN % -1` overflows but is 0
+            Some(CoerceResult::I128(a, b)) => b != 0 && a.checked_rem(b).unwrap_or(0) == 0,
             Some(CoerceResult::F64(a, b)) => (a % b) == 0.0,
             _ => false,
         }
